@@ -7,7 +7,8 @@ LEVEL = 'proof'
 GROUPS, UNITS = {}, []
 # a cross-section of the units whose operands are allocated at exactly the documented extent and that run with bounds / pointer /
 # shift / signed-overflow / division checks (and the allocator model where the code allocates)
-for prop, pred in (('C03', r'NTT_wrapper@(1x1|2x3|4x4)$|NTT_noop@|extendPol$|BR$|log2$'), ('C07', r'linear_hash(_seq)?$'), ('C08', r'merkletree_(seq|avx|avx512)$|getTreeNumElements$'),
+for prop, pred in (('C03', r'NTT_wrapper@(1x1|2x3|4x4)$|NTT_noop@|extendPol$|BR$|log2$'), ('C07', r'linear_hash(_seq)?$'), ('C08', r'merkletree_(batch_)?(seq|avx|avx512)$|getTreeNumElements$'),
+                   ('C16', r'g16_\d+_(copy|add|sub|mul)\w*_(batch|avx|avx512)$'),
                    ('C17', r'parcpy$|parSetZero$|g17_00[0-5]_copy_batch'), ('C13', r'k_spmv_avx_4x12@lane0$|k_dot_avx$'), ('C02', r'k_(load|store)_avx(_a)?$'), ('C11', r'k_(load|store)_avx512(_a)?$')):
     _g, _u = import_units(prop, lambda n, p=pred: re.match(p, n))
     GROUPS.update(_g); UNITS += _u
